@@ -17,7 +17,7 @@ using vf::foreign_exc;
 %(preamble)s
 '''
 
-AM = {'a': 'tao::pegtl::apply_mode::action', 'n': 'tao::pegtl::apply_mode::nothing'}
+AM = {'a': 'tao::pegtl::apply_mode::action', 'n': 'tao::pegtl::apply_mode::nothing'}   # mode tags: ar ao nr no
 RM = {'r': 'tao::pegtl::rewind_mode::required', 'o': 'tao::pegtl::rewind_mode::optional'}
 
 # config: tag -> (C++ action template, spec action kind, C++ control template, control has unwind, veto max)
@@ -34,7 +34,7 @@ CONFIGS = {
 
 
 def queries(ctx, prefix, grammars, configs, N, K=3, modes=('ar', 'ao', 'nr'), includes=(), preamble='', action_unwind=True, known=None, split_modes=False,
-            maxres=3, evmax=24):
+            maxres=3, evmax=24, lazy=False):
     doc = pegspec.Doc(os.path.join(vf.REPO, 'doc', 'Rule-Reference.md'))
     qs = []
     for (gname, gtext, opts) in grammars:
@@ -44,21 +44,21 @@ def queries(ctx, prefix, grammars, configs, N, K=3, modes=('ar', 'ao', 'nr'), in
             wrappers = []
             for m in modes:
                 w = 'w_%s_%s_%s' % (gname, tag, m)
-                wl.append('VF_WRAP( %s, %s, %s, %s, %s, %s )' % (w, gtext, AM[m[0]], RM[m[1]], act, ctl))
+                wl.append('VF_WRAP( %s, %s, %s, %s, %s, %s%s )' % (w, gtext, AM[m[0]], RM[m[1]], act, ctl, ', vf::lazy_in' if lazy else ''))
                 wrappers.append((w, 1 if m[0] == 'a' else 0, 1 if m[1] == 'r' else 0, m))
             text = WRAP_HEAD % {'includes': '\n'.join('#include <%s>' % i for i in includes), 'preamble': preamble} + '\n'.join(wl) + '\n'
-            unit = ctx.unit('%s_%s_%s' % (prefix, gname, tag), text=text)
+            unit = ctx.unit('%s_%s_%s%s' % (prefix, gname, tag, '_lazy' if lazy else ''), text=text)
             n = opts.get('N', N)
             reach = list(opts.get('reach', []))
             em = opts.get('evmax', evmax)
-            h = ctx.write('h_%s_%s.c' % (gname, tag),
+            h = ctx.write('h_%s_%s%s.c' % (gname, tag, '_lazy' if lazy else ''),
                           evgen.harness_text(gtext, wrappers, n, K, doc, action=kind, unwind=unw, maxres=opts.get('maxres', maxres), vetomax=vmax,
-                                             evmax=em, action_unwind=action_unwind, reach=reach))
+                                             evmax=em, action_unwind=action_unwind, reach=reach, lazy=lazy))
             for m in modes:
-                qs.append(vf.Query('%s/%s/%s' % (gname, tag, m), unit, h, unwind=n + 3, mem_gb=opts.get('mem_gb', 2),
+                qs.append(vf.Query('%s%s/%s/%s' % (gname, '.lazy' if lazy else '', tag, m), unit, h, unwind=n + 3, mem_gb=opts.get('mem_gb', 2),
                                    unwindset=['ev_setup.1:13', 'ev_setup.0:%d' % (n + 2), 'ev_compare.0:%d' % (em + 1)],
                                    cbmc_defines={'VF_SPLIT': 1, 'V_' + m: 1},
-                                   bounds={'N': n, 'K': K, 'grammar': gtext, 'action': act, 'control': ctl, 'mode': m, 'max_events': em},
+                                   bounds={'N': n, 'K': K, 'grammar': gtext, 'action': act, 'control': ctl, 'mode': m, 'max_events': em, 'input': 'lazy' if lazy else 'eager'},
                                    known=opts.get('known', known),
                                    note='hook/action event log of the real run == reference protocol'))
     return qs
